@@ -365,3 +365,6 @@ def check(ctx):
     r4_setters(ctx)
     r5_scope_provenance(ctx)
     r6_every_import_resolved(ctx)
+
+
+CLAUSE += '; what the two cloning checkers skip is decided by reviewed predicates and comparisons of reviewed types only'
